@@ -8,6 +8,13 @@ use std::path::Path;
 use syn::visit::Visit;
 use syn::{Expr, Stmt};
 
+fn squash_stmt(s: &Stmt) -> String {
+    s.to_token_stream().to_string().split_whitespace().collect::<String>()
+}
+fn squash_expr(e: &Expr) -> String {
+    e.to_token_stream().to_string().split_whitespace().collect::<String>()
+}
+
 fn beh_coq(v: &str) -> Option<&'static str> {
     Some(match v {
         "Append" => "Append",
@@ -101,7 +108,7 @@ pub fn translate(repo: &Path, out: &mut Out) {
         return;
     };
     let mut v = String::new();
-    v.push_str("From LV Require Import Base LayerEnv.\n\n");
+    v.push_str("From LV Require Import Base LayerEnv ImpPrims.\n\n");
     let mut j = serde_json::Map::new();
 
     // ---- 1. ModificationBehavior order index
@@ -449,6 +456,57 @@ pub fn translate(repo: &Path, out: &mut Out) {
         j.insert("path_list_separator".into(), json!(s));
     } else {
         out.miss("layer_env.rs: PATH_LIST_SEPARATOR");
+    }
+
+    // ---- 8. the loop body of LayerEnvDelta::apply, translated statement by statement (imp.rs)
+    if let Some(f) = find_impl_fn(&file, "LayerEnvDelta", None, "apply") {
+        let cfg = crate::imp::Config {
+            methods: vec![
+                ("get", "(bget {0} {r})"),
+                ("cloned", "{r}"),
+                ("clone", "{r}"),
+                ("unwrap_or_default", "(opt_default {r})"),
+                ("contains_key", "(env_contains {0} {r})"),
+                ("is_empty", "(is_empty {r})"),
+                ("delimiter_for", "(delimiter_for {r} {0})"),
+            ],
+            mutators: vec![("insert", "(bset {0} {1} {r})"), ("push", "({r} ++ {0})")],
+            state_calls: vec![],
+            calls: vec![("OsString::new", "(@nil N)")],
+            variants: vec![("Override", "Override"), ("Default", "Default"), ("Append", "Append"), ("Prepend", "Prepend"), ("Delimiter", "Delim")],
+            eq: "beq",
+        };
+        let st = &f.block.stmts;
+        // expected frame: let mut result_env = env.clone(); for PAT in &self.entries { BODY } result_env
+        let frame_ok = st.len() == 3
+            && squash_stmt(&st[0]) == "letmutresult_env=env.clone();"
+            && squash_stmt(&st[2]) == "result_env"
+            && matches!(&st[1], Stmt::Expr(Expr::ForLoop(fl), _) if squash_expr(&fl.expr) == "&self.entries");
+        let _ = writeln!(v, "Definition apply_loop_frame_ok : bool := {frame_ok}.");
+        if let Some(Stmt::Expr(Expr::ForLoop(fl), _)) = st.get(1) {
+            let mut ids = vec![];
+            crate::imp::pat_idents(&fl.pat, &mut ids);
+            if ids == ["modification_behavior", "name", "value"] {
+                let mut tr = crate::imp::Tr::new(&cfg);
+                let mut scope = vec!["result_env".to_string()];
+                let term = tr.stmts(&fl.body.stmts, &mut scope, &["result_env".to_string()]);
+                for m in &tr.missing {
+                    out.miss(format!("layer_env.rs: LayerEnvDelta::apply body: {m}"));
+                }
+                let _ = writeln!(
+                    v,
+                    "(* LayerEnvDelta::apply, one iteration of `for ((modification_behavior, name), value) in &self.entries` *)\nDefinition gen_delta_step (self : delta) (modification_behavior : beh) (result_env : env) (name value : bytes) : env :=\n{}.",
+                    crate::imp::indent(&term, 2)
+                );
+                j.insert("gen_delta_step".into(), json!(term));
+            } else {
+                out.miss(format!("layer_env.rs: LayerEnvDelta::apply loop pattern binds {ids:?}"));
+            }
+        } else {
+            out.miss("layer_env.rs: LayerEnvDelta::apply `for` loop");
+        }
+    } else {
+        out.miss("layer_env.rs: LayerEnvDelta::apply");
     }
 
     out.coq("GenLayerEnv.v").push_str(&v);
